@@ -58,8 +58,8 @@ fn gap_ops<const N: usize>(rng: &mut Rng, thorough: bool, vals: &[[u64; N]], out
             out.line(&format!("C15 tav {} {}", n, ah), &guarded(|| format!("{:x}", x.two_adic_valuation())));
             out.line(&format!("C15 tac {} {}", n, ah), &guarded(|| hex_limbs(&x.two_adic_coefficient().0)));
         } else if N == 1 {
-            out.line(&format!("C15 tav {} {}", n, ah), &run_child("child-tav1", 3));
-            out.line(&format!("C15 tac {} {}", n, ah), &run_child("child-tac1", 3));
+            out.line(&format!("C15 tav {} {}", n, ah), &run_child("child-tav1", 1));
+            out.line(&format!("C15 tac {} {}", n, ah), &run_child("child-tac1", 1));
         }
         if heavy {
             out.line(&format!("C15 montr {} {}", n, ah), &guarded(|| hex_limbs(&x.montgomery_r().0)));
